@@ -117,6 +117,8 @@ func init() {
 		c.p.replace[name] = fv
 		return nil, ctlRet
 	}
+	z("Native", func(c *callCtx) (Value, ctl) { return c.p.tc().False, ctlRet })
+	z("NativeUnsupported", func(c *callCtx) (Value, ctl) { return nil, ctlRet })
 	z("Replace", replaceFn)
 	z("ReplaceSym", replaceFn)
 	z("UF8", func(c *callCtx) (Value, ctl) {
